@@ -149,7 +149,7 @@ func TestVerif_C15_b(t *testing.T) {
 			runs = append(runs, cr)
 			r.Class("label/" + pn + "/" + d.name + "/" + cr.labels[c14SortedRounds(cr.labels)[0]])
 		}
-		lookback := basics.Round(configConsensusLookback(pn))
+		lookback := basics.Round(c15ConsensusLookback(pn))
 		for i := 0; i < len(runs); i++ {
 			for j := 0; j < len(runs); j++ {
 				if i == j {
@@ -233,7 +233,7 @@ func TestVerif_C15_b(t *testing.T) {
 	}
 }
 
-func configConsensusLookback(pn string) uint64 {
+func c15ConsensusLookback(pn string) uint64 {
 	if pn == string(c14ProtoB) {
 		return 6
 	}
